@@ -116,6 +116,97 @@ pub fn products(ctx: &Ctx, rep: &mut Report) {
     rep.require("sizes", 11);
 }
 
+/// The inverse transform applied directly to structured TRANSFORM-DOMAIN vectors (the products
+/// leg only ever feeds it outputs of the forward transform, which look random): blocks of
+/// values near q-1 next to blocks near 0 at every alignment, saw-tooth and extreme vectors.
+/// Oracle: linearity against the crate's own impulse responses (each validated by
+/// ntt(intt(e_i)) == e_i), and the round trip ntt(intt(v)) == v.
+pub fn inverse_structured(ctx: &Ctx, rep: &mut Report) {
+    let sizes: Vec<usize> = (1..=10).map(|k| 1usize << k).collect();
+    let reps = ctx.sz(1, 6);
+    let r = par_for(sizes.len(), ncpu(), |si, rep| {
+        let n = sizes[si];
+        let mut rng = rng_for(ctx.seed, &format!("c11-inv-{}", n));
+        // impulse responses of the inverse transform
+        let mut basis: Vec<Vec<i64>> = Vec::with_capacity(n);
+        for i in 0..n {
+            let mut e = vec![0i16; n];
+            e[i] = 1;
+            let e2 = e.clone();
+            match monitored(move || (vh::intt(&e2), vh::ntt(&vh::intt(&e2)))) {
+                Ok((col, back)) => {
+                    if back != e {
+                        rep.violation("ntt:inverse-impulse-roundtrip", format!("ntt(intt(e_{})) != e_{} for n={}", i, i, n), json!({"kind": "inv", "v": e}));
+                    }
+                    basis.push(col.iter().map(|&x| x as i64).collect());
+                }
+                Err(p) => {
+                    rep.violation(&format!("panic:intt@{}", short_loc(&p.location)), format!("n={}: {}", n, p.message), json!({"kind": "inv", "v": e}));
+                    return;
+                }
+            }
+        }
+        let mut vectors: Vec<(String, Vec<i64>)> = vec![];
+        vectors.push(("all q-1".into(), vec![Q - 1; n]));
+        vectors.push(("saw 0/q-1".into(), (0..n).map(|i| if i % 2 == 0 { 0 } else { Q - 1 }).collect()));
+        for blk in [2usize, 4, 8, 16, 32, 64, 128] {
+            if 2 * blk > n {
+                continue;
+            }
+            // blocks of `blk` high values followed by `blk` low values, at every block-aligned
+            // offset, high = q-1-small, low = small
+            for off in (0..n).step_by(2 * blk).take(if n > 256 { 40 } else { 64 }) {
+                for _ in 0..reps {
+                    let mut v: Vec<i64> = (0..n).map(|_| rng.gen_range(0..Q)).collect();
+                    for i in 0..blk {
+                        v[off + i] = Q - 1 - rng.gen_range(0..3);
+                        if off + blk + i < n {
+                            v[off + blk + i] = rng.gen_range(0..3);
+                        }
+                    }
+                    vectors.push((format!("block{}@{}", blk, off), v.clone()));
+                    // and the mirrored pattern (low first)
+                    let m: Vec<i64> = v.iter().map(|&x| (Q - 1 - x).rem_euclid(Q)).collect();
+                    vectors.push((format!("block{}@{}-mirrored", blk, off), m));
+                }
+            }
+            // the whole vector made of such blocks
+            vectors.push((format!("periodic-block{}", blk), (0..n).map(|i| if (i / blk) % 2 == 0 { Q - 1 } else { 0 }).collect()));
+            vectors.push((format!("periodic-block{}-inv", blk), (0..n).map(|i| if (i / blk) % 2 == 0 { 0 } else { Q - 1 }).collect()));
+        }
+        for (name, v) in vectors {
+            rep.evaluations += 1;
+            let vi: Vec<i16> = v.iter().map(|&x| x as i16).collect();
+            let v2 = vi.clone();
+            match monitored(move || (vh::intt(&v2), vh::ntt(&vh::intt(&v2)))) {
+                Err(p) => rep.violation(&format!("panic:intt@{}", short_loc(&p.location)), format!("n={} ({}): {}", n, name, p.message), json!({"kind": "inv", "v": vi})),
+                Ok((got, back)) => {
+                    // linear combination of the impulse responses
+                    let mut want = vec![0i64; n];
+                    for (i, &c) in v.iter().enumerate() {
+                        if c != 0 {
+                            for j in 0..n {
+                                want[j] += c * basis[i][j];
+                            }
+                        }
+                    }
+                    let want: Vec<i64> = want.iter().map(|&x| x.rem_euclid(Q)).collect();
+                    if got.iter().map(|&x| x as i64).collect::<Vec<_>>() != want {
+                        rep.violation("ntt:inverse-not-linear", format!("intt(v) differs from the linear combination of its impulse responses for n={} ({})", n, name), json!({"kind": "inv", "v": vi}));
+                    } else if back != vi {
+                        rep.violation("ntt:inverse-roundtrip", format!("ntt(intt(v)) != v for n={} ({})", n, name), json!({"kind": "inv", "v": vi}));
+                    }
+                    rep.nontrivial(format!("inv|{}|{}", n, name).as_bytes());
+                }
+            }
+        }
+        rep.count("inverse_sizes", 1);
+    });
+    rep.merge(r);
+    rep.require("inverse_sizes", 10);
+    rep.sample(json!({"what": "intt on block-structured transform-domain vectors", "block_sizes": [2, 4, 8, 16, 32, 64, 128], "oracle": "linearity against impulse responses + round trip"}));
+}
+
 /// One thread walks through all sizes with the SAME low-degree coefficients embedded in
 /// different lengths (constants, the zero polynomial, short polynomials): any state kept between
 /// transforms (a cache, a scratch buffer) that confuses X^n+1 with X^m+1 shows up here.
@@ -168,6 +259,13 @@ pub fn cross_size(ctx: &Ctx, rep: &mut Report) {
 pub fn replay(r: &Value) -> bool {
     let mut rep = Report::new();
     match r["kind"].as_str().unwrap_or("") {
+        "inv" => {
+            let v: Vec<i16> = r["v"].as_array().unwrap().iter().map(|x| x.as_i64().unwrap() as i16).collect();
+            let v2 = v.clone();
+            let out = monitored(move || vh::ntt(&vh::intt(&v2)));
+            println!("ntt(intt(v)) == v: {:?}", out.as_ref().map(|b| *b == v).map_err(|p| p.message.clone()));
+            return matches!(out, Ok(b) if b == v);
+        }
         "pair" => {
             let a: Vec<i64> = r["a"].as_array().unwrap().iter().map(|x| x.as_i64().unwrap()).collect();
             let b: Vec<i64> = r["b"].as_array().unwrap().iter().map(|x| x.as_i64().unwrap()).collect();
